@@ -41,6 +41,7 @@ def main():
             anchors = list(getattr(mod, "ANCHOR_FILES", []))
             if anchors and not shard.get("no_reach"):
                 reach.start_reach(anchors)
+                reach.start_lines(anchors)
             if not shard.get("bare"):
                 contracts.attach_standard(ctx, shard.get("mode", "raise"))
             if hasattr(mod, "attach"):
@@ -81,6 +82,7 @@ def main():
                     ctx.crash("shard %s" % shard.get("name"))
             r = ctx.result()
             r["reach"] = reach.stop_reach(getattr(mod, "REQUIRED_REACH", [])) if anchors and not shard.get("no_reach") else {}
+            r["lines"] = reach.stop_lines() if anchors and not shard.get("no_reach") else {}
             r["attached"] = list(contracts.ATTACHED)
             hashes = r.pop("hashes")
             states = r.pop("states")
